@@ -16,6 +16,8 @@ def injectionGuarded : Bool := true
 def toolCallOwnRunInfo : Bool := true
 def wrapperOnErrorAlways : Bool := true
 def toolRunInfoUnconditional : Bool := true
+/-- every graph node made from a `*Lambda` value has a runnable of its own -/
+def lambdaNodeOwnsRunnable : Bool := true
 /-- the parameters of the compose level -/
 def cfacts : EinoV.C10.CFacts := ⟨runHasDeferredBlock, deferStartsIfMissing, wrapperOnErrorAlways, toolRunInfoUnconditional⟩
 /-- the parameters of the unit machine -/
